@@ -169,6 +169,7 @@ type Analysis struct {
 	rootObjs  map[string][]*Obj
 	World     *Obj
 	extObjs   map[ssa.Instruction]*Obj
+	worlds    map[string]*Obj
 	phiNodes  map[phiKey]NodeID
 	phiPruned map[phiKey]bool
 	// PrunedPhis counts phi uses refined by guarded-phi pruning.
@@ -1297,9 +1298,46 @@ func (a *Analysis) FreshResult(site ssa.CallInstruction) { a.freshResult(site, "
 // EscapeTo records that argument j escapes to the closed world object w, and
 // makes w's contents include it.
 func (a *Analysis) EscapeTo(site ssa.CallInstruction, j int, what string) {
+	a.EscapeToWorld(site, j, what, "")
+}
+
+// WorldObj returns the closed object standing for an external container
+// ("" is the script runtime world).
+func (a *Analysis) WorldObj(world string) *Obj {
+	if world == "" {
+		return a.World
+	}
+	if a.worlds == nil {
+		a.worlds = map[string]*Obj{}
+	}
+	if o, ok := a.worlds[world]; ok {
+		return o
+	}
+	o := a.newObj(KWorld, "external-container:"+world, nil)
+	o.Closed, o.Next = true, o
+	a.worlds[world] = o
+	return o
+}
+
+func (a *Analysis) EscapeToWorld(site ssa.CallInstruction, j int, what, world string) {
 	if an, ok := a.ArgNode(site, j); ok {
 		a.Escapes = append(a.Escapes, Escape{Instr: site, Arg: j, Node: an, To: what})
-		a.addCopy(an, a.cell(a.loc(a.World, "")))
+		a.addCopy(an, a.cell(a.loc(a.WorldObj(world), "")))
+	}
+}
+
+// ResultFromWorldNamed: results may be anything that escaped to the named container.
+func (a *Analysis) ResultFromWorldNamed(site ssa.CallInstruction, world string) {
+	w := a.WorldObj(world)
+	sig := site.Common().Signature()
+	n := sig.Results().Len()
+	for i := 0; i < n; i++ {
+		t := sig.Results().At(i).Type()
+		pl := a.callResultPlace(site, i, t, n)
+		if PointerLike(t) && pl.node >= 0 {
+			a.addLoc(pl.node, a.loc(w, ""))
+			a.addCopy(a.cell(a.loc(w, "")), pl.node)
+		}
 	}
 }
 
